@@ -127,7 +127,7 @@ def check_program(ctx, src, p, config, keep_names, workdir, cli):
     ctx.monitor('line_scopes_checked', len([s for s in p.scopes if s[2] != 'tight']))
     try:
         before = L.get_token_count()
-        after = lua.Lua.from_lines([out], version=8).get_token_count()
+        after = lua.Lua.from_lines([out], version=ambient.VERSION[0]).get_token_count()
     except Exception as e:
         ctx.violation('minified code does not re-parse: %r' % (e,), case)
         return
@@ -148,7 +148,7 @@ def check_cli(ctx, src, p, config, keep_file, workdir, case):
         if os.path.exists(f):
             os.remove(f)
     with open(p1, 'wb') as fh:
-        fh.write(rc.write_p8(regions, src, version=8))
+        fh.write(rc.write_p8(regions, src, version=ambient.VERSION[0]))
     argv = [ambient.vflag(), 'luamin']
     if config == 'keep_all':
         argv.append('--keep-all-names')
